@@ -285,6 +285,9 @@ Proof.
     destruct (i_wfS _ _ _ _ _ _ _ _ _ _ _ _ I id ds Gs) as (q & Hq & D1 & D2 & D3).
     assert (q = p) as -> by congruence.
     rewrite D1. cbn [negb Z.eqb UNDEF Pos.eqb].
+    destruct (epoch <=? p_start p) eqn:Ees.
+    { intros [= <- <-]. cbn [sa_new sa_slashed]. fold S. rewrite Z.sub_diag.
+      split; [apply ev_nop; auto|auto]. }
     destruct (pdu_spec epoch _ S st id p ds I Hp Gs He) as (st2 & R & F & Pn).
     rewrite R.
     pose proof F as [_ FE _ _ _ _ Ffr]. destruct Ffr.
@@ -736,3 +739,209 @@ Proof.
   cbn [fst] in *.
   eapply (fresh_led None now st g epoch (ca_states acc)); eauto. apply Hf. constructor.
 Qed.
+
+Lemma settle_led now st g epoch ids :
+  MarketInv now st -> Led st g -> now <= epoch -> 0 <= epoch -> NoDup ids ->
+  Led (fst (settle st epoch ids)) (gnext None st g (fst (settle st epoch ids))).
+Proof.
+  intros I Ld Hn He Hnd. pose proof (invc_now_mono _ _ _ _ _ _ _ _ _ _ _ _ _ I Hn) as I'.
+  unfold settle.
+  destruct (settle_loop epoch st (mkSacc [] 0 [] 0 [] []) 0 ids) as [st1 a|] eqn:Hl;
+    [|now apply (led_unchanged None now)].
+  assert (I1 : settle_inv epoch st1 a).
+  { apply (settle_loop_inv epoch ids st (mkSacc [] 0 [] 0 [] []) 0 st1 a He Hnd);
+      [exact I'|intros k _ H; exact H|exact Hl]. }
+  destruct (settle_loop_led epoch st (g_gone g) (bt_get (g_dep g)) (bt_get (g_wd g)) ids
+              st (mkSacc [] 0 [] 0 [] []) 0 st1 a He Hnd I' ltac:(intros k _ H; exact H)
+              (led_start None now st g I Ld) (conj eq_refl eq_refl) Hl) as ([L1 _ _ _ _] & Hn1 & Hb1).
+  unfold settle_inv in I1.
+  pose proof (i_owed _ _ _ _ _ _ _ _ _ _ _ _ I1) as Ho.
+  pose proof (i_solv _ _ _ _ _ _ _ _ _ _ _ _ I1) as Hs.
+  pose proof (inv_bsum_nonneg _ _ _ _ I1) as Hbs.
+  set (st3 := set_psectors _ _).
+  destruct (sa_slashed a =? 0) eqn:E0; zb.
+  - cbn [fst]. eapply led_finish with (st1 := st1) (owed := sa_slashed a); [exact L1|reflexivity|reflexivity|reflexivity| |exact Hn1].
+    rewrite E0. cbn. lia.
+  - destruct ((sa_slashed a <? 0) || (balance st3 <? sa_slashed a)) eqn:E1.
+    { apply orb_true_iff in E1 as [E1|E1]; zb; [lia|]. unfold st3 in E1. cbn in E1. lia. }
+    cbn [fst]. eapply led_finish with (st1 := st1) (owed := sa_slashed a); [exact L1|reflexivity|reflexivity|reflexivity| |exact Hn1].
+    cbn. lia.
+Qed.
+
+Lemma cron_led now st g caller epoch :
+  MarketInv now st -> Led st g -> now <= epoch -> 0 <= epoch ->
+  Led (fst (cron_tick st caller epoch)) (gnext None st g (fst (cron_tick st caller epoch))).
+Proof.
+  intros I Ld Hn He. pose proof (invc_now_mono _ _ _ _ _ _ _ _ _ _ _ _ _ I Hn) as I'.
+  unfold cron_tick. destruct (negb (caller =? CRON_ACTOR_ID)); [now apply (led_unchanged None now)|].
+  destruct (cron_loop epoch st (mkCracc 0 [] []) (flat_map snd (due st epoch))) as [st1 a|] eqn:Hl;
+    [|now apply (led_unchanged None now)].
+  assert (I1 : cron_inv epoch st1 a) by (eapply cron_loop_inv; [exact He| |exact Hl]; exact I').
+  destruct (cron_loop_led epoch st (g_gone g) (bt_get (g_dep g)) (bt_get (g_wd g)) _
+              st (mkCracc 0 [] []) st1 a He I' (led_start None now st g I Ld) (conj eq_refl eq_refl) Hl)
+    as ([L1 _ _ _ _] & Hn1 & Hb1).
+  unfold cron_inv in I1.
+  pose proof (i_owed _ _ _ _ _ _ _ _ _ _ _ _ I1) as Ho.
+  pose proof (i_solv _ _ _ _ _ _ _ _ _ _ _ _ I1) as Hs.
+  pose proof (inv_bsum_nonneg _ _ _ _ I1) as Hbs.
+  set (st3 := set_deal_ops _ _ _).
+  destruct (cr_slashed a =? 0) eqn:E0; zb.
+  - cbn [fst]. eapply led_finish with (st1 := st1) (owed := cr_slashed a); [exact L1|reflexivity|reflexivity|reflexivity| |exact Hn1].
+    rewrite E0. cbn. lia.
+  - destruct ((cr_slashed a <? 0) || (balance st3 <? cr_slashed a)) eqn:E1.
+    { apply orb_true_iff in E1 as [E1|E1]; zb; [lia|]. unfold st3 in E1. cbn in E1. lia. }
+    cbn [fst]. eapply led_finish with (st1 := st1) (owed := cr_slashed a); [exact L1|reflexivity|reflexivity|reflexivity| |exact Hn1].
+    cbn. lia.
+Qed.
+
+Lemma loopled_psectors term st0 G0 dep wd st S owed v :
+  LoopLed term st0 G0 dep wd st S owed -> LoopLed term st0 G0 dep wd (set_psectors st v) S owed.
+Proof. intros []. constructor; assumption. Qed.
+
+Lemma terminate_led now st g caller m epoch sectors :
+  MarketInv now st -> Led st g -> now <= epoch -> 0 <= epoch ->
+  Led (fst (terminate st caller m epoch sectors))
+      (gnext (Some epoch) st g (fst (terminate st caller m epoch sectors))).
+Proof.
+  intros I Ld Hn He. pose proof (invc_now_mono _ _ _ _ _ _ _ _ _ _ _ _ _ I Hn) as I'.
+  unfold terminate. destruct (negb m); [now apply (led_unchanged (Some epoch) now)|].
+  destruct (pop_sector_deals (psectors st) caller sectors) as [ps' ids].
+  destruct (term_loop st caller epoch (set_psectors st ps') 0 ids) as [st1 total|] eqn:Hl;
+    [|now apply (led_unchanged (Some epoch) now)].
+  assert (I0 : term_inv epoch st (set_psectors st ps') 0).
+  { split; [exact I'|]. intros id. right. split; reflexivity. }
+  assert (I1 : term_inv epoch st st1 total) by (eapply term_loop_inv; [exact He|exact I0|exact Hl]).
+  destruct (term_loop_led epoch st caller st (g_gone g) (bt_get (g_dep g)) (bt_get (g_wd g)) ids
+              (set_psectors st ps') 0 st1 total He I0
+              (loopled_psectors _ _ _ _ _ _ _ _ _ (led_start (Some epoch) now st g I Ld)) (conj eq_refl eq_refl) Hl) as ([L1 _ _ _ _] & Hn1 & Hb1).
+  destruct I1 as [I1 _].
+  pose proof (i_owed _ _ _ _ _ _ _ _ _ _ _ _ I1) as Ho.
+  pose proof (i_solv _ _ _ _ _ _ _ _ _ _ _ _ I1) as Hs.
+  pose proof (inv_bsum_nonneg _ _ _ _ I1) as Hbs.
+  destruct (0 <? total) eqn:E0; zb.
+  - destruct (balance st1 <? total) eqn:E1; zb; [lia|].
+    cbn [fst]. eapply led_finish with (st1 := st1) (owed := total); [exact L1|reflexivity|reflexivity|reflexivity| |exact Hn1].
+    cbn. lia.
+  - cbn [fst]. eapply led_finish with (st1 := st1) (owed := total); [exact L1|reflexivity|reflexivity|reflexivity| |exact Hn1].
+    lia.
+Qed.
+
+(* ------------------------------------------------------------------------------------------ *)
+Theorem gstep_led now st g o :
+  MarketInv now st -> Led st g -> now <= op_epoch o -> wf_op o ->
+  Led (fst (gstep st g o)) (snd (gstep st g o)).
+Proof.
+  intros I Ld Hn [He Hw]. unfold gstep.
+  destruct o; cbn [step op_epoch term_of] in *.
+  - pose proof (add_balance_led now st g who t value I Ld) as H.
+    destruct (add_balance st who t value) as [st' r]. exact H.
+  - pose proof (withdraw_led now st g caller who t amount I Ld) as H.
+    destruct (withdraw_balance st caller who t amount) as [st' r]. exact H.
+  - pose proof (publish_led now st g caller epoch t deals I Ld Hn He) as H.
+    destruct (publish st caller epoch t deals) as [st' r]. exact H.
+  - pose proof (activate_led now st g caller is_miner epoch sectors I Ld) as H.
+    destruct (batch_activate st caller is_miner epoch sectors) as [st' r]. exact H.
+  - pose proof (scc_led now st g caller is_miner epoch sectors I Ld) as H.
+    destruct (sector_content_changed st caller is_miner epoch sectors) as [st' r]. exact H.
+  - subst pepoch. pose proof (terminate_led now st g caller is_miner epoch sectors I Ld Hn He) as H.
+    destruct (terminate st caller is_miner epoch sectors) as [st' r]. exact H.
+  - pose proof (settle_led now st g epoch ids I Ld Hn He Hw) as H.
+    destruct (settle st epoch ids) as [st' r]. exact H.
+  - pose proof (cron_led now st g caller epoch I Ld Hn He) as H.
+    destruct (cron_tick st caller epoch) as [st' r]. exact H.
+  - unfold get_balance. destruct (negb resolves); cbn; now apply (led_unchanged None now).
+Qed.
+
+Lemma gstep_fst st g o : fst (gstep st g o) = fst (step st o).
+Proof. unfold gstep. now destruct (step st o). Qed.
+
+Fixpoint grun (st : state) (g : ghost) (ops : list op) : state * ghost :=
+  match ops with
+  | [] => (st, g)
+  | o :: r => grun (fst (gstep st g o)) (snd (gstep st g o)) r
+  end.
+
+Lemma grun_fst ops : forall st g, fst (grun st g ops) = run st ops.
+Proof.
+  induction ops as [|o ops IH]; intros st g; cbn [grun fold_left run]; [reflexivity|].
+  rewrite IH, gstep_fst. reflexivity.
+Qed.
+
+Theorem led_run ops : forall now st g,
+  MarketInv now st -> Led st g -> hist_ok now ops ->
+  Led (fst (grun st g ops)) (snd (grun st g ops)).
+Proof.
+  induction ops as [|o ops IH]; intros now st g I Ld H; cbn [grun hist_ok] in *; [exact Ld|].
+  destruct H as (H1 & H2 & H3).
+  pose proof (gstep_led now st g o I Ld H1 H2) as Ld'.
+  pose proof (step_inv now st o I H1 H2) as I'. rewrite <- gstep_fst with (g := g) in I'.
+  exact (IH (op_epoch o) _ _ I' Ld' H3).
+Qed.
+
+Theorem led_reachable ivl ops :
+  hist_ok 0 ops -> Led (fst (grun (init ivl) g0 ops)) (snd (grun (init ivl) g0 ops)).
+Proof. intros H. eapply led_run; [apply invc_init|apply led_init|exact H]. Qed.
+
+(* ------------------------------------------------------------------------------------------ *)
+(* reading the ledger *)
+Theorem ledger_reads st g : Led st g ->
+  (forall a, E st a = bt_get (g_dep g) a - bt_get (g_wd g) a
+                      + osum (live_flow a) (proposals st) (states st) + msum (gone_flow a) (g_gone g)) /\
+  burnt st <= msum gone_burnt (g_gone g) /\
+  (forall id, g_gone g !! id <> None -> proposals st !! id = None /\ id < next_id st).
+Proof. intros []. auto. Qed.
+
+(* schedule independence: the escrow table is a function of the deposits, the withdrawals, the fates of
+   the finished deals and the paid-until epochs of the live ones -- nothing else of the history matters *)
+Theorem path_independence st1 g1 st2 g2 :
+  Led st1 g1 -> Led st2 g2 ->
+  proposals st1 = proposals st2 ->
+  (forall id p, proposals st1 !! id = Some p ->
+                paid_until (states st1 !! id) p = paid_until (states st2 !! id) p) ->
+  g_gone g1 = g_gone g2 ->
+  (forall a, bt_get (g_dep g1) a - bt_get (g_wd g1) a = bt_get (g_dep g2) a - bt_get (g_wd g2) a) ->
+  forall a, E st1 a = E st2 a.
+Proof.
+  intros [H1 _ _] [H2 _ _] HP Hpu HG Hd a. rewrite H1, H2, HG, <- HP.
+  rewrite (osum_S_ext (live_flow a) (proposals st1) (states st1) (states st2) Hpu).
+  specialize (Hd a). lia.
+Qed.
+
+(* per-party reading of a deal's flow when client and provider are different participants *)
+Lemma flow_provider p e b : p_client p <> p_provider p -> flow (p_provider p) p e b = e - b.
+Proof. intros H. unfold flow. rewrite ind_same, ind_diff by congruence. lia. Qed.
+Lemma flow_client p e b : p_client p <> p_provider p -> flow (p_client p) p e b = - e.
+Proof. intros H. unfold flow. rewrite ind_same, ind_diff by congruence. lia. Qed.
+Lemma flow_other a p e b : a <> p_client p -> a <> p_provider p -> flow a p e b = 0.
+Proof. intros H1 H2. unfold flow. rewrite !ind_diff by congruence. lia. Qed.
+
+(* the payment windows of successive updates are consecutive: writing last_updated := epoch makes the
+   next window start exactly where this one ended *)
+Lemma pu_after_update now p ds epoch :
+  wf_ds now p ds -> now <= epoch -> 0 <= epoch -> epoch < p_end p ->
+  paid_until (Some (mkDs (ds_sector ds) (ds_start ds) epoch (ds_slash ds))) p =
+  Z.max (paid_until (Some ds) p) (Z.min (p_end p) epoch).
+Proof.
+  intros (_ & _ & D3) Hn He Hend. unfold paid_until at 1. cbn [ds_lu]. unfold UNDEF.
+  destruct (epoch =? -1) eqn:E1; zb; [lia|].
+  destruct D3 as [D3|D3]; unfold paid_until; [rewrite D3; cbn; lia|].
+  destruct (ds_lu ds =? UNDEF); lia.
+Qed.
+
+Lemma pu_monotone p ds epoch :
+  paid_until (Some ds) p <= Z.max (paid_until (Some ds) p) (Z.min (p_end p) epoch).
+Proof. lia. Qed.
+
+(* what the ghost records *)
+Theorem ghost_records st g o :
+  snd (gstep st g o) =
+  mkG (g_gone g ∪ gone_new (term_of o) st (proposals (fst (step st o))))
+      (match o, snd (step st o) with
+       | AddBalance _ who _ v, c :: _ => if c =? OK then bt_upd (g_dep g) who v else g_dep g
+       | _, _ => g_dep g
+       end)
+      (match o, snd (step st o) with
+       | Withdraw _ _ who _ _, [c; paid; _] => if c =? OK then bt_upd (g_wd g) who paid else g_wd g
+       | _, _ => g_wd g
+       end).
+Proof. destruct o; unfold gstep; destruct (step st _) as [st' r]; reflexivity. Qed.
